@@ -48,7 +48,7 @@ Qed.
 
 Lemma seconds_since_unix_epoch_spec : forall md p, valid_tp md p = true ->
   exists k, seconds_since_unix_epoch md p = Some k /\
-    ((instant md unix_ref <= instant md p)%Q -> k = Qfloor (instant md p - instant md unix_ref)) /\
+    k = Qfloor (instant md p - instant md unix_ref) /\
     (qis_int (instant md p - instant md unix_ref) = true ->
        (inject_Z k == instant md p - instant md unix_ref)%Q).
 Proof.
@@ -60,9 +60,11 @@ Proof.
   destruct DS as (S1 & S2 & S3).
   rewrite (rough_len_exact md (DU 0 0 dd h m s) eq_refl), Len in S3.
   eexists. split; [reflexivity|]. unfold qz. split.
-  - intros L. rewrite qtrunc_nonneg by (rewrite S3; lra). rewrite S3. reflexivity.
+  - rewrite S3. reflexivity.
   - intros Hi. apply qis_int_iff in Hi. destruct Hi as [z Hz].
-    rewrite (qtrunc_int _ z) by (rewrite S3; exact Hz). symmetry. exact Hz.
+    assert (F : Qfloor (inject_Z (86400 * days) + secs) = z).
+    { rewrite S3. rewrite Hz. apply Qfloor_Z. }
+    rewrite F. symmetry. exact Hz.
 Qed.
 
 Open Scope Z_scope.
